@@ -3,10 +3,10 @@
 import json,subprocess
 V='/verif'
 props=[json.loads(l)['id'] for l in open(V+'/properties.jsonl')]
-HOOK_COMMITS=['95dc337']
+HOOK_COMMITS=['95dc337','05b5333']
 C={}
 MOD=dict(C01='m_alloc.go',C02='m_alloc.go',C03='m_layout.go',C04='m_queue.go',C05='m_wakeup.go',C06='m_bytes.go',C07='m_mux.go',C08='m_bytes.go',C09='m_leak.go',C10='m_close.go',C11='m_block.go',C12='m_handshake.go',C13='m_fuzz.go',C14='m_death.go',C15='m_pool.go',C16='m_hotrestart.go',C17='m_heal.go',C18='m_evconn.go',C19='m_netlistener.go',C20='m_callback.go')
-HOLD=set(['C10','C20'])  # builders still working
+HOLD=set([])  # builders still working
 def chk(pid,cat,text,note,tech,ref):
     C[pid]=dict(property_id=pid,quick_cmd='./run.sh %s quick'%pid,thorough_cmd='./run.sh %s thorough'%pid,
         evidence_file='evidence/%s.json'%pid,engine='go-harness',replay_cmd_template='./run.sh %s replay {path}'%pid,
